@@ -95,6 +95,15 @@ def replay(inputs, label, strat, n, b):
     return False, "not reproduced"
 
 
+def validate(inputs, strat, n, b):
+    a = pl.ADAPTERS[strat]
+    X = np.array(inputs["X"], dtype=float).reshape(n, 1)
+    lab = [int(v) for v in inputs["labeled"]]
+    env = pl.Env()
+    _loop(env, a, X, lab, b, int(inputs.get("seed", 0)), False, inputs=inputs)
+    return sorted(env.violated)
+
+
 def _cfg_for(name):
     def cfg(tier):
         a = pl.ADAPTERS[name]
@@ -113,6 +122,8 @@ def _cfg_for(name):
 HARNESSES = [Harness(f"loop[{name}]", sym, replay, _cfg_for(name), pl.BASE_UNITS + a.units,
                      product_abstraction=a.product_abstraction, required_witnesses=("two_cycles", "cold_start"))
              for name, a in pl.ADAPTERS.items()]
+for _h in HARNESSES:
+    _h.validate = validate
 BOUNDS = dict(quick="pools of n = 3 samples, every initial labeling (0..n-1 labels), batch sizes 1-3, the whole loop until "
                     "exhaustion, one strategy object across cycles, fresh symbolic model outputs per cycle",
               thorough="n in {3,4}, batch sizes 1..3",
